@@ -302,4 +302,59 @@ theorem coverage {P : Set E} (hP : Pᶜ.Nonempty) (δ : ℝ) (hδ : 0 < δ) (n :
 
 end cover
 
+section outline
+open Metric
+variable {E : Type} [NormedAddCommGroup E] [NormedSpace ℝ E]
+
+/-- **the outline is met on the way out**: on the segment from a point of the block to a point outside it there is a point
+of the block's frontier (intermediate value theorem for the signed distance), no farther from the start than the end -/
+theorem outline_met (P : Set E) (p b : E) (hp : p ∈ P) (hb : b ∉ P) :
+    ∃ q ∈ _root_.frontier P, dist p q ≤ dist p b := by
+  have hPne : P.Nonempty := ⟨p, hp⟩
+  have hCne : Pᶜ.Nonempty := ⟨b, hb⟩
+  let γ : ℝ → E := fun s => AffineMap.lineMap p b s
+  have hγ : Continuous γ := AffineMap.lineMap_continuous
+  let g : ℝ → ℝ := fun s => infDist (γ s) P - infDist (γ s) Pᶜ
+  have hg : Continuous g := ((continuous_infDist_pt P).comp hγ).sub ((continuous_infDist_pt Pᶜ).comp hγ)
+  have g0 : g 0 ≤ 0 := by
+    simp only [g, γ, AffineMap.lineMap_apply_zero, infDist_zero_of_mem hp, zero_sub, neg_nonpos]
+    exact infDist_nonneg
+  have g1 : 0 ≤ g 1 := by
+    simp only [g, γ, AffineMap.lineMap_apply_one, infDist_zero_of_mem (show b ∈ Pᶜ from hb), sub_zero]
+    exact infDist_nonneg
+  obtain ⟨s, ⟨hs0, hs1⟩, hs⟩ := intermediate_value_Icc (zero_le_one) hg.continuousOn ⟨g0, g1⟩
+  have heq : infDist (γ s) P = infDist (γ s) Pᶜ := by
+    have : g s = 0 := hs
+    simp only [g] at this
+    linarith
+  have hzero : infDist (γ s) P = 0 ∧ infDist (γ s) Pᶜ = 0 := by
+    by_cases hmem : γ s ∈ P
+    · have := infDist_zero_of_mem hmem
+      exact ⟨this, by rw [← heq, this]⟩
+    · have := infDist_zero_of_mem (show γ s ∈ Pᶜ from hmem)
+      exact ⟨by rw [heq, this], this⟩
+  refine ⟨γ s, ?_, ?_⟩
+  · rw [frontier_eq_closure_inter_closure]
+    exact ⟨(mem_closure_iff_infDist_zero hPne).mpr hzero.1, (mem_closure_iff_infDist_zero hCne).mpr hzero.2⟩
+  · show dist p (AffineMap.lineMap p b s) ≤ dist p b
+    rw [dist_left_lineMap, Real.norm_eq_abs, abs_of_nonneg hs0]
+    have := dist_nonneg (x := p) (y := b)
+    nlinarith
+
+/-- **coverage, with the outline hypothesis discharged**: if the path contains the block's frontier (the first polyline is
+the outline), the level sets of depth `k δ` for `1 ≤ k < n`, and a hatch point within `δ/2` of every point of depth `≥ n δ`,
+then every point of the block is within `δ` (+ any `ε`) of the path -/
+theorem coverage_of_outline {P : Set E} (hP : Pᶜ.Nonempty) (δ : ℝ) (hδ : 0 < δ) (n : ℕ) (path : Set E)
+    (hout : _root_.frontier P ⊆ path)
+    (hcont : ∀ k : ℕ, 1 ≤ k → k < n → ∀ q, infDist q Pᶜ = k * δ → q ∈ path)
+    (hhatch : ∀ p, n * δ ≤ infDist p Pᶜ → ∃ q ∈ path, dist p q ≤ δ / 2) :
+    ∀ p ∈ P, ∀ ε > 0, ∃ q ∈ path, dist p q ≤ δ + ε :=
+  coverage hP δ hδ n path
+    (fun p hp b hb => by
+      obtain ⟨q, hq, hd⟩ := outline_met P p b hp hb
+      exact ⟨q, hout hq, hd⟩)
+    hcont hhatch
+
+end outline
+
 end Femto.C07
